@@ -5,8 +5,8 @@ use educe::Educe;
 use core::cmp::Ordering;
 #[derive(Educe)]
 #[educe(Hash)]
-pub struct T(#[educe(Hash(method = "m_hash"))] A<0>, #[educe(Hash(method(m_hash)))] A<1>, A<2>);
-pub fn values() -> Vec<T> { vec![T(A(0), A(0), A(0)), T(A(0), A(0), A(1)), T(A(0), A(0), A(7)), T(A(0), A(1), A(0)), T(A(0), A(1), A(1)), T(A(0), A(1), A(7)), T(A(0), A(7), A(0)), T(A(0), A(7), A(1)), T(A(0), A(7), A(7)), T(A(1), A(0), A(0)), T(A(1), A(0), A(1)), T(A(1), A(0), A(7)), T(A(1), A(1), A(0)), T(A(1), A(1), A(1)), T(A(1), A(1), A(7)), T(A(1), A(7), A(0)), T(A(1), A(7), A(1)), T(A(1), A(7), A(7)), T(A(7), A(0), A(0)), T(A(7), A(0), A(1)), T(A(7), A(0), A(7)), T(A(7), A(1), A(0)), T(A(7), A(1), A(1)), T(A(7), A(1), A(7)), T(A(7), A(7), A(0)), T(A(7), A(7), A(1)), T(A(7), A(7), A(7))] }
-pub fn show(x: &T) -> String { #[allow(unused_variables)] match x { T(p0, p1, p2) => format!("T({},{},{})", sv(p0), sv(p1), sv(p2)) } }
-pub fn o_hash(x: &T) -> Vec<String> { let mut e = Rec::default(); match x { T(p0, p1, p2) => { m_hash(p0, &mut e); m_hash(p1, &mut e); ::core::hash::Hash::hash(p2, &mut e); } } e.0 }
+pub enum T { Some(#[educe(Hash(method = m_hash))] A<0>, #[educe(Hash(method = m_hash))] A<1>, #[educe(Hash(method(m_hash)))] A<0>, #[educe(Hash(method("m_hash")))] A<0>), C(), A }
+pub fn values() -> Vec<T> { vec![T::Some(A(1), A(1), A(1), A(7)), T::Some(A(0), A(1), A(0), A(1)), T::Some(A(7), A(7), A(0), A(0)), T::Some(A(1), A(0), A(0), A(1)), T::Some(A(1), A(7), A(1), A(0)), T::Some(A(0), A(1), A(0), A(0)), T::Some(A(7), A(1), A(0), A(0)), T::Some(A(7), A(0), A(7), A(0)), T::Some(A(1), A(0), A(7), A(1)), T::Some(A(0), A(0), A(0), A(7)), T::Some(A(0), A(1), A(1), A(0)), T::Some(A(1), A(1), A(0), A(1)), T::Some(A(7), A(7), A(7), A(0)), T::Some(A(1), A(0), A(1), A(0)), T::Some(A(1), A(1), A(0), A(0)), T::Some(A(1), A(7), A(0), A(7)), T::C(), T::A] }
+pub fn show(x: &T) -> String { #[allow(unused_variables)] match x { T::Some(p0, p1, p2, p3) => format!("Some({},{},{},{})", sv(p0), sv(p1), sv(p2), sv(p3)), T::C() => format!("C()"), T::A => format!("A()") } }
+pub fn o_hash(x: &T) -> Vec<String> { let mut e = Rec::default(); match x { T::Some(p0, p1, p2, p3) => { ::core::hash::Hash::hash(&0usize, &mut e); m_hash(p0, &mut e); m_hash(p1, &mut e); m_hash(p2, &mut e); m_hash(p3, &mut e); }, T::C() => { ::core::hash::Hash::hash(&1usize, &mut e); }, T::A => { ::core::hash::Hash::hash(&2usize, &mut e); } } e.0 }
 pub fn run(out: &mut Out) { let vs = values(); for a in &vs { let mut g = Rec::default(); ::core::hash::Hash::hash(a, &mut g); let e = o_hash(a); out.check(g.0 == e, "hash_26", "hash", || format!("hash({}) fed {:?} expected {:?}", show(a), g.0, e)); } }
